@@ -1940,7 +1940,7 @@ private:
                 offset_ = offset_ + column_types_[column_index_ - offset_].rep_count;
                 if (column_index_ - offset_ + 1 < column_types_.size())
                 {
-                    if (column_index_ == offset_ || depth_ > column_types_[column_index_-offset_].level)
+                    if (depth_ > 0 && (column_index_ == offset_ || depth_ > column_types_[column_index_-offset_].level)) // only an array that is open is closed
                     {
                         visitor.end_array(*this, ec);
                         more_ = !cursor_mode_;
